@@ -56,7 +56,7 @@ theorem repr_op (E : Env) (S : Router E) (L : List Route) (op : Op) (h : RRepr E
   | remove id => exact rrepr_remove E S L id h
   | batchRemove ids => exact rrepr_batch E S L ids h
   | changeSet a u d => exact rrepr_changeSet E S L a u d h hv
-  | cache n => exact h
+  | cache n => exact g_cache _ S L n h
 
 /-! ### histories -/
 
@@ -198,7 +198,7 @@ theorem repr_op_tree (T : TEnv) (Good : List Char → Prop) (hPS : PrefixSound T
   | remove id => exact g_remove T.env _ hT S L id h
   | batchRemove ids => exact g_batch T.env _ hT S L ids h
   | changeSet a u d => exact g_changeSet T.env _ hT S L a u d h hv hg
-  | cache n => exact h
+  | cache n => exact g_cache _ S L n h
 
 open Rio.Regex Rio.Tree in
 theorem repr_run_tree (T : TEnv) (Good : List Char → Prop) (hPS : PrefixSound T.engine Good)
